@@ -21,7 +21,40 @@ LEMMAS = _s.LEMMAS + [
     LEMMA("ALLTY_NTH", {"t": "str", "w": "str", "xs": "objseq", "k": "int", "q": "int"},
           ["ALLTY(t, w, xs, k)", "0 <= q < k"], "TYV(t, w, xs[q]) and not is_none(xs[q])",
           measure="k", ih=[("q < k - 1", {"k": "k - 1"})], props=["C09", "C01", "C06"]),
-    LEMMA("VARINT_NONEMPTY", {"v": "int"}, ["v >= 0"], "len(VARINT(v)) >= 1", props=["C09"]),
+    LEMMA("VARINT_NONEMPTY", {"v": "int"}, ["v >= 0"], "len(VARINT(v)) >= 1", props=["C09", "C06"]),
+    LEMMA("AX_PAYLOAD_NONEMPTY", {"us": "int", "s": "str", "fmt": "str", "v": "obj"}, [],
+          "implies(us != 0, len(TSWIRE(us)) > 0 and len(DURWIRE(us)) > 0) and (len(UTF8(s)) == 0) == (s == '')"
+          " and len(PACKF(fmt, v)) > 0",
+          assumed=True, props=["C06", "C01"],
+          notes="A-UTF8 / A-STRUCT / time area: a non-zero Timestamp or Duration, a non-empty string and any fixed-width value have non-empty payloads"),
+    LEMMA("C06_EMISSION_FOLLOWS_PRESENCE",
+          {"n": "int", "t": "str", "w": "str", "g": "bool", "opt": "bool", "dk": "str", "sel": "bool", "v": "obj", "vsow": "bool",
+           "cn": "int", "xs": "objseq", "ks": "objseq", "vs": "objseq", "mk": "str", "mv": "str"},
+          ["1 <= n < (1 << 29)", "KNOWN_KIND(t)", "TYFIELD(t, w, opt, dk, v, cn, xs, ks, vs, mk, mv)", "cn >= 0",
+           "g == sel", "implies(w != '', t == 'message')",
+           "dk == 'list' or dk == 'dict' or dk == 'none' or dk == 'message' or dk == 'datetime' or dk == 'timedelta' or dk == 'float' or dk == 'str' or dk == 'bytes' or dk == 'int'",
+           "(t == 'map') == (dk == 'dict')",
+           "implies(dk != 'list' and dk != 'dict', (dk == 'none') if (opt or w != '') else ((dk == 'message' or dk == 'datetime' or dk == 'timedelta') if t == 'message'"
+           " else (dk == ('float' if (t == 'float' or t == 'double') else ('str' if t == 'string' else ('bytes' if t == 'bytes' else 'int'))))))",
+           "implies(dk == 'message', is_msg(v))", "implies(dk == 'datetime', is_dt(v))", "implies(dk == 'timedelta', is_td(v))",
+           "implies(dk == 'str', is_str(v))", "implies(dk == 'bytes', is_bytes(v))", "implies(dk == 'float', is_float(v))",
+           "implies(dk == 'int', is_int(v))", "(dk == 'list') == is_list(v)", "(dk == 'dict') == is_dict(v)",
+           "implies(dk == 'none', opt or w != '' or is_none(v))",
+           "implies(dk == 'str', t == 'string')", "implies(dk == 'bytes', t == 'bytes')",
+           "implies(dk == 'float', t == 'float' or t == 'double')", "implies(dk == 'int', IS_VARINT_KIND(t) or IS_FIXED32(t) or IS_FIXED64(t))",
+           "implies(dk == 'message' or dk == 'datetime' or dk == 'timedelta', t == 'message' and w == '')",
+           # recorded defect K-C06-deep-assign: a sub-message that is not default although it does not report serialized_on_wire
+           "not (dk == 'message' and not vsow and not ISDEF(dk, v, cn) and not g and not opt)"],
+          "EMITC(n, t, w, g, opt, dk, sel, v, vsow, cn, xs, ks, vs, mk, mv) == EMITP(n, t, w, g, opt, dk, sel, v, vsow, cn, xs, ks, vs, mk, mv)",
+          use=[("AX_PAYLOAD_NONEMPTY", {"us": "dt_us(v)", "s": "as_str(v)", "fmt": "FMT(t)", "v": "v"}),
+               ("AX_PAYLOAD_NONEMPTY", {"us": "td_us(v)", "s": "as_str(v)", "fmt": "FMT(t)", "v": "v"}),
+               ("VARINT_NONEMPTY", {"v": "U64(as_int(v))"}), ("VARINT_NONEMPTY", {"v": "ZZ(as_int(v))"}),
+               ("VARINT_NONEMPTY", {"v": "n * 8"}), ("VARINT_NONEMPTY", {"v": "n * 8 + 1"}), ("VARINT_NONEMPTY", {"v": "n * 8 + 5"}),
+               ("ZZ_NONNEG", {"v": "as_int(v)"})],
+          props=["C06", "C01", "C02"],
+          notes="what dump() emits for a readable field (EMITC, proved equal to the code) is exactly what the presence rules of "
+                "the property demand (EMITP): defaults of implicit-presence fields are skipped, set optional / oneof / wrapper "
+                "fields are emitted even when default, a plain sub-message iff serialized_on_wire"),
 ]
 
 
@@ -61,25 +94,25 @@ CONTRACTS = [
        ensures=[("C09-dump-writes-the-encoding", "stream.data == old(stream.data) + PFX + old(WIRE())"), FRAME],
        top=["C09-dump-writes-the-encoding"],
        loops=_loops(None, False), use=ELEM_USE, inst_terms=INST,
-       props=["C09", "C06", "C08", "C10", "C01", "C02"]),
+       props=["C09", "C06", "C08", "C10", "C01", "C02", "C14", "C07"]),
     FN("betterproto.Message.__len__",
        types={**MSG}, returns="int", modifies=["self"],
        requires=PRE,
        ensures=[("C09-len-is-encoded-size", "result == len(old(WIRE()))"), FRAME],
        top=["C09-len-is-encoded-size"],
        loops=_loops(None, True), use=ELEM_USE, inst_terms=INST,
-       props=["C09", "C08", "C10"]),
+       props=["C09", "C08", "C10", "C14"]),
     FN("betterproto.Message.__bytes__",
        types={**MSG}, returns="bytes", modifies=["self"],
        requires=PRE,
        ensures=[("C09-bytes-is-the-encoding", "result == old(WIRE())"), FRAME],
        top=["C09-bytes-is-the-encoding"],
-       props=["C09", "C01", "C02"]),
+       props=["C09", "C01", "C02", "C14"]),
     FN("betterproto.Message.SerializeToString",
        types={**MSG}, returns="bytes", modifies=["self"],
        requires=PRE,
        ensures=[("C09-same-as-bytes", "result == old(WIRE())"), FRAME],
        top=["C09-same-as-bytes"],
-       props=["C09"]),
+       props=["C09", "C14"]),
 ]
 EXTRA_CONTRACTS = _s.CONTRACTS + _v.CONTRACTS
